@@ -3,6 +3,7 @@
 EXTENDS Sched
 MC_DagEmptyAll  == DagConfigs(Outcomes, {"ABSENT"})
 MC_DagEmpty3    == DagConfigs({"ok", "fail", "raise"}, {"ABSENT"})
+MC_DagOk        == DagConfigs({"ok"}, {"ABSENT"})
 MC_DagEmpty2    == DagConfigs({"ok", "fail"}, {"ABSENT"})
 MC_DagEmptyMal  == DagConfigs({"ok", "none", "notpair", "badstatus", "badupdate", "nonfinal"}, {"ABSENT"})
 MC_DagInit      == DagConfigs({"ok", "fail"}, Inits)
